@@ -735,6 +735,53 @@ def _left_cleared_blocks(ctx, body):
     return out
 
 
+def _returns_old_is_empty(ctx, fb, depth=0):
+    """does the function / closure return `OLD.len() == 0` (or OLD.is_empty()) of the old-table record it is given?"""
+    for rb in fb.return_blocks():
+        ok = False
+        for d in fb.defs_reaching(Loc(rb, len(fb.stmts(rb))), 0):
+            op0 = {"k": "copy", "place": {"local": 0, "proj": [], "ty": fb.locals[0]["ty"]}}
+            src = d
+            if d[3] == "assign" and d[4]["rv"]["k"] == "use":
+                sd = fb.source_def(d[4]["rv"]["op"])
+                if sd is not None:
+                    src = (sd[0], None, None, sd[1], sd[2])
+            if src[3] == "assign" and src[4]["rv"]["k"] == "binop" and src[4]["rv"]["op"] == "Eq":
+                rv = src[4]["rv"]
+                for x, y in ((rv["a"], rv["b"]), (rv["b"], rv["a"])):
+                    if fb.op_const(y) == 0:
+                        sd2 = fb.source_def(x)
+                        if sd2 is not None and sd2[1] == "call":
+                            c3 = ctx.call_at(fb, sd2[0].bb)
+                            if c3.tname == HBT + "len" and ctx.role(fb, c3.arg_path(0)) == OLD:
+                                ok = True
+                            elif depth < 2 and c3.local_callee() is not None and _returns_old_len(ctx, c3.local_callee()):
+                                ok = True
+            elif src[3] == "call":
+                c3 = ctx.call_at(fb, src[0].bb)
+                if c3.tname == HBT + "is_empty" and ctx.role(fb, c3.arg_path(0)) == OLD:
+                    ok = True
+                elif depth < 2 and c3.local_callee() is not None and c3.local_callee().kind != "Closure":
+                    ok = _returns_old_is_empty(ctx, c3.local_callee(), depth + 1)
+        if not ok:
+            return False
+    return bool(fb.return_blocks())
+
+
+def _returns_old_len(ctx, fb):
+    """the function returns OLD.len() of the old-table record it is given"""
+    for rb in fb.return_blocks():
+        ok = False
+        for d in fb.defs_reaching(Loc(rb, len(fb.stmts(rb))), 0):
+            if d[3] == "call":
+                c3 = ctx.call_at(fb, d[0].bb)
+                if c3.tname == HBT + "len" and ctx.role(fb, c3.arg_path(0)) == OLD:
+                    ok = True
+        if not ok:
+            return False
+    return bool(fb.return_blocks())
+
+
 def old_empty_edges(ctx, body):
     """{(bb, succ): True|False}: edges on which OLD.len() == 0 is known true / false"""
     out = {}
@@ -759,7 +806,7 @@ def old_empty_edges(ctx, body):
             c = ctx.call_at(body, d[0].bb)
             if c.tname == HBT + "is_empty" and ctx.role(body, c.arg_path(0)) == OLD:
                 empty_if_true = True
-            elif c.name in (OPT + "is_some_and", OPT + "map_or", OPT + "is_none_or") and c.closure_args():
+            elif c.name in (OPT + "is_some_and", OPT + "map_or", OPT + "is_none_or") and (c.closure_args() or c.fn_value_args()):
                 # LEFT.as_ref().is_some_and(|lo| lo.table.len() == 0): true => pending and empty; false => not pending, or not empty ("NE")
                 src_ok = False
                 sd = body.source_def(c.args[0])
@@ -770,17 +817,8 @@ def old_empty_edges(ctx, body):
                 elif c.arg_path(0) is not None and ctx.roles.is_left_place(c.arg_path(0)):
                     src_ok = True
                 default_false = c.name == OPT + "is_some_and" or (c.name == OPT + "map_or" and body.op_const(c.args[1]) == 0)
-                cb = c.closure_args()[0]
-                clo_empty = False
-                for loc2, st2 in cb.all_assigns():
-                    if st2["place"]["local"] == 0 and st2["rv"]["k"] == "binop" and st2["rv"]["op"] == "Eq":
-                        for x, y in ((st2["rv"]["a"], st2["rv"]["b"]), (st2["rv"]["b"], st2["rv"]["a"])):
-                            if cb.op_const(y) == 0:
-                                sd2 = cb.source_def(x)
-                                if sd2 is not None and sd2[1] == "call":
-                                    c3 = ctx.call_at(cb, sd2[0].bb)
-                                    if c3.tname == HBT + "len" and ctx.role(cb, c3.arg_path(0)) == OLD:
-                                        clo_empty = True
+                cb = (c.closure_args() + c.fn_value_args())[0]
+                clo_empty = _returns_old_is_empty(ctx, cb)
                 if src_ok and default_false and clo_empty:
                     for v, tb in t["targets"]:
                         if tb != t["otherwise"] and v == 0:
